@@ -27,6 +27,7 @@ type DispScenario struct {
 		Dec   string            `json:"dec"`
 		Rdec  string            `json:"rdec"`
 		Wret  string            `json:"wret"`
+		Mtype string            `json:"mtype"`
 	} `json:"cfg"`
 	Hooks   [][]string `json:"hooks"`
 	Chooks  [][]string `json:"chooks"`
@@ -88,7 +89,7 @@ func runDisp(rec *Rec, sc *DispScenario, n int) {
 	c := sc.Cfg
 	rec.SetTrace(sc.ID, map[string]interface{}{
 		"mode": "disp", "kind": c.Kind, "route": c.Route, "hout": c.Hout, "dec": c.Dec, "rdec": c.Rdec,
-		"vetopl": c.Veto[0], "vetostage": c.Veto[1], "vkind": c.Vkind, "wret": c.Wret,
+		"vetopl": c.Veto[0], "vetostage": c.Veto[1], "vkind": c.Vkind, "wret": c.Wret, "mtype": c.Mtype,
 		"exphooks": flat(sc.Hooks), "expchooks": flat(sc.Chooks),
 		"expinvoked": sc.Invoked, "expreplies": sc.Replies, "expcstat": sc.Cstat, "expdisc": sc.Disc, "expwritten": sc.Written,
 	})
@@ -181,7 +182,19 @@ func runDisp(rec *Rec, sc *DispScenario, n int) {
 	if c.Wret == "late" {
 		a.SetWriteReturnDelay(25 * time.Millisecond)
 	}
-	if c.Kind == "call" {
+	if c.Kind == "badtype" {
+		// a well-formed frame with a type byte the session does not serve, written straight onto the connection
+		mt := map[string]byte{"t0": 0, "t4": erpc.TypeAuthCall, "t5": erpc.TypeAuthReply, "t9": 9, "t255": 255}[c.Mtype]
+		a.Write(packFrame(mt, 77, CallRoute, &Arg{Tag: tag}, nil))
+		WaitUntil(time.Second, func() bool {
+			select {
+			case <-ss.CloseNotify():
+				return true
+			default:
+				return false
+			}
+		})
+	} else if c.Kind == "call" {
 		var result interface{} = new(Res)
 		if c.Rdec == "bad" {
 			result = new(int)
